@@ -15,8 +15,10 @@ WB == W(<<<<1, 6>>, <<2, 10>>, <<5, 14>>, <<8, 18>>>>, <<4, 0, 12, 0>>)
 WC == W(<<<<2, 6>>, <<1, 0>>, <<6, 11>>, <<10, 18>>>>, <<0, 0, 0, 0>>)
 \* three long contracts that start together
 WD == W(<<<<1, 7>>, <<1, 12>>, <<2, 18>>>>, <<0, 0, 0>>)
+\* the second contract stops trading before the first one does (it is never the front contract)
+WE == W(<<<<1, 12>>, <<3, 9>>, <<5, 18>>>>, <<0, 0, 0>>)
 WorldsSmall == {WA, WB}
-WorldsAll   == {WA, WB, WC, WD}
+WorldsAll   == {WA, WB, WC, WD, WE}
 
 MCInit == Init /\ hist = <<>>
 Step(act) == hist' = Append(hist, act)
